@@ -187,6 +187,7 @@ func (fr *fmtRun) genTrees() error {
 		return err
 	}
 	precSeen := false
+	treesByFam := map[string]int{}
 	nTrees := 0
 	selfCheck := 0
 	err = ReadLines(r.Emitted, func(line []byte) error {
@@ -199,6 +200,7 @@ func (fr *fmtRun) genTrees() error {
 			return checkPrecTable(g)
 		}
 		nTrees++
+		treesByFam[g.Fam]++
 		comparable := fmtNormTree(g.T)
 		name := string(g.Name)
 		rng := rand.New(rand.NewSource(c.Seed*1000003 + int64(nTrees)))
@@ -261,6 +263,7 @@ func (fr *fmtRun) genTrees() error {
 		return fmt.Errorf("GrolSyntax GEN emitted no tree")
 	}
 	c.Cov("gen_trees", nTrees)
+	c.Cov("gen_trees_by_family", treesByFam)
 	c.Cov("renderer_selfcheck_against_gen_go", selfCheck)
 	c.AddTraces(int64(nTrees))
 	return nil
